@@ -4,7 +4,7 @@ Tie (correspondence): random entity models (explicit / auto / composite primary 
 keys, optional key attributes with None) are built as real Pony classes over a SQLite FILE database.  A random history of
 several db_sessions runs on real Pony: constructor calls (valid and conflicting), assignments and set(**kw) that move or
 swap key values between objects (directly and through a temporary value), deletes followed by re-creation of the same key,
-explicit ids colliding with generated ids, `E[pk]` / `get`, `flush()`, the per-object `obj.flush()`, `commit()`, `rollback()`, and INSERTs of
+explicit ids colliding with generated ids, `E[pk]` / `get`, `flush()`, the per-object `obj.flush()`, `commit()`, `rollback()`, and INSERTs / UPDATEs / DELETEs of
 (conflicting and harmless) rows through a SECOND raw connection between the session's reads and its flush.  After EVERY
 call the outcome (ok / exception class), the committed table read through an independent raw connection, the table as the
 session's own connection sees it, every session object's status / key / values / bits, `cache.indexes` and
@@ -42,7 +42,7 @@ class W14(c11.World):
         self.dbfile = dbfile
         self.ext = sqlite3.connect(dbfile, timeout=0, isolation_level=None)       # the second writer
         self.reader = sqlite3.connect(dbfile, timeout=0, isolation_level=None)    # independent observer
-        self.txn_written = []
+        self.txn_written = []; self.assigned = {}
 
     def close(self):
         for c in (self.ext, self.reader):
@@ -130,8 +130,8 @@ class W14(c11.World):
         pend = self.pending_auto()
         written = list(self.txn_written)
         err, exc = self.call(commit)
-        self.txn_written = []
-        res = {'err': err, 'mop': {'k': 'commit', 'ids': self.ids_after(pend, err, exc)}, 'msg': str(exc) if err else None, 'written': written}
+        self.txn_written = []; assigned, self.assigned = self.assigned, {}
+        res = {'err': err, 'mop': {'k': 'commit', 'ids': self.ids_after(pend, err, exc)}, 'msg': str(exc) if err else None, 'written': written, 'assigned': assigned}
         if err is not None: res['reset'] = True
         return res
 
@@ -147,7 +147,7 @@ class W14(c11.World):
 
     def op_rollback14(self, op):
         err, exc = self.call(rollback)
-        self.txn_written = []
+        self.txn_written = []; self.assigned = {}
         return {'err': err, 'mop': {'k': 'rollback'}, 'reset': True}
 
     def op_fetch14(self, op):
@@ -174,6 +174,28 @@ class W14(c11.World):
             err = 'Locked' if 'locked' in str(e) else 'OperationalError'
         return {'err': err, 'mop': {'k': 'ext', 'pk': op['pk'], 'vals': op['vals']}}
 
+    def ext_stmt(self, sql, params, mop):
+        try:
+            self.ext.execute(sql, params); err = None
+        except sqlite3.IntegrityError: err = 'ExtIntegrityError'
+        except sqlite3.OperationalError as e:
+            err = 'Locked' if 'locked' in str(e) else 'OperationalError'
+        return {'err': err, 'mop': mop}
+
+    def pk_where(self, pk):
+        return ' and '.join('"%s" = ?' % c for c in self.pk_cols), list(pk)
+
+    def op_extu14(self, op):
+        """UPDATE of one column through the second connection"""
+        wh, params = self.pk_where(op['pk'])
+        return self.ext_stmt('update "%s" set "a%d" = ? where %s' % (self.table, op['a'], wh), [op['v']] + params,
+                             {'k': 'extUpdate', 'pk': op['pk'], 'a': op['a'], 'v': op['v']})
+
+    def op_extd14(self, op):
+        """DELETE through the second connection"""
+        wh, params = self.pk_where(op['pk'])
+        return self.ext_stmt('delete from "%s" where %s' % (self.table, wh), params, {'k': 'extDelete', 'pk': op['pk']})
+
     def apply14(self, op):
         k = op['k']
         self.log.clear(); self.raw()
@@ -183,7 +205,12 @@ class W14(c11.World):
                 if not any(o is x for x in self.txn_written): self.txn_written.append(o)
         try:
             if k in ('create', 'set', 'delete', 'read'):
+                n0 = len(self.objs)
                 r = getattr(self, 'op_' + k)(op)
+                if r['err'] is None:
+                    # the columns the session itself assigned in this transaction (the commit oracle compares exactly these)
+                    if k == 'create': self.assigned[id(self.objs[-1])] = set(range(len(self.attrs)))
+                    elif k == 'set': self.assigned.setdefault(id(self.objs[op['o']]), set()).update(a for a, _ in op['changes'])
                 return {'err': r['err'], 'mop': {'k': 'sess', 'op': r['mops'][0]}}
             return getattr(self, 'op_' + k + '14')(op)
         except c11.StaleOp:
@@ -224,8 +251,9 @@ def gen_op(rng, w, since_commit):
         if keyattrs and rng.random() < 0.7: attrs[0] = rng.choice(keyattrs); attrs = list(dict.fromkeys(attrs))
         ch = [[a, rng.choice([None, 0, 1, 2, 3, 8, 9])] for a in attrs]
         return {'k': 'set', 'o': o, 'changes': ch, 'via': 'attr' if len(ch) == 1 and rng.random() < 0.6 else 'set'}
-    if r < 0.56: return {'k': 'delete', 'o': o}
-    if r < 0.66: return {'k': 'fetch', 'pk': w.pkl(objs[o]) if objs[o]._pkval_ is not None and rng.random() < 0.4 else w.rand_pk(rng), 'how': rng.choice(['item', 'get'])}
+    if r < 0.54: return {'k': 'delete', 'o': o}
+    if r < 0.58 and objs[o]._vals_: return {'k': 'read', 'o': o, 'a': rng.randrange(n)}
+    if r < 0.67: return {'k': 'fetch', 'pk': w.pkl(objs[o]) if objs[o]._pkval_ is not None and rng.random() < 0.4 else w.rand_pk(rng), 'how': rng.choice(['item', 'get'])}
     if r < 0.70: return {'k': 'flush'}
     if r < 0.76:
         pend = [i for i, x in enumerate(objs) if x._status_ in ('created', 'modified', 'marked_to_delete')]
@@ -240,7 +268,15 @@ def gen_op(rng, w, since_commit):
         pk = w.rand_pk(rng)
         if w.auto and rng.random() < 0.5: pk = [rng.randrange(1, 12)]
         return {'k': 'ext', 'pk': pk, 'vals': vals}
-    if r < 0.96: return {'k': 'commit'}
+    if r < 0.93 and objs:
+        # the second writer changes or removes a row the session knows (or any row)
+        src = objs[rng.choice(live)] if live and rng.random() < 0.8 else None
+        pk = w.pkl(src) if src is not None and src._pkval_ is not None else w.rand_pk(rng)
+        if rng.random() < 0.75:
+            a = rng.choice(keyattrs) if keyattrs and rng.random() < 0.5 else rng.randrange(n)
+            return {'k': 'extu', 'pk': pk, 'a': a, 'v': rng.choice([None, 0, 1, 2, 3, 8])}
+        return {'k': 'extd', 'pk': pk}
+    if r < 0.97: return {'k': 'commit'}
     return {'k': 'rollback'}
 
 
@@ -290,6 +326,14 @@ DIRECTED = [
      'sessions': [[{'k': 'create', 'cls': 0, 'kw': {'a0': 1}}, {'k': 'create', 'cls': 0, 'kw': {'a0': 2}}, {'k': 'oflush', 'o': 1},
                    {'k': 'set', 'o': 1, 'changes': [[1, 5]], 'via': 'attr'}, {'k': 'oflush', 'o': 1}, {'k': 'oflush', 'o': 1}, {'k': 'rollback'}],
                   [{'k': 'create', 'cls': 0, 'kw': {'a0': 3}}, {'k': 'oflush', 'o': 0}, {'k': 'commit'}]]},
+    # the second writer changes a column the session has read: the session's UPDATE matches no row (OptimisticCheckError), commit
+    # rolls back, the other writer's value stays; and an UPDATE of a row the other writer deleted
+    {'spec': {'nattrs': 2, 'unique': [True, False], 'ckeys': [], 'pk': 'explicit', 'parents': [None], 'with_h': False},
+     'sessions': [[{'k': 'create', 'cls': 0, 'kw': {'id': 1, 'a0': 1, 'a1': 1}}, {'k': 'create', 'cls': 0, 'kw': {'id': 2, 'a0': 2, 'a1': 2}}, {'k': 'commit'}],
+                  [{'k': 'fetch', 'pk': [1], 'how': 'item'}, {'k': 'read', 'o': 0, 'a': 1}, {'k': 'extu', 'pk': [1], 'a': 1, 'v': 8},
+                   {'k': 'set', 'o': 0, 'changes': [[0, 5]], 'via': 'attr'}, {'k': 'commit'}],
+                  [{'k': 'fetch', 'pk': [2], 'how': 'item'}, {'k': 'extd', 'pk': [2]}, {'k': 'set', 'o': 0, 'changes': [[1, 5]], 'via': 'attr'}, {'k': 'commit'}],
+                  [{'k': 'fetch', 'pk': [1], 'how': 'item'}, {'k': 'extu', 'pk': [1], 'a': 1, 'v': 9}, {'k': 'set', 'o': 0, 'changes': [[0, 6]], 'via': 'attr'}, {'k': 'commit'}]]},
     # a flush that stops half-way, caught by the program, then commit
     {'spec': {'nattrs': 1, 'unique': [True], 'ckeys': [], 'pk': 'explicit', 'parents': [None], 'with_h': False},
      'sessions': [[{'k': 'ext', 'pk': [9], 'vals': [3]}, {'k': 'create', 'cls': 0, 'kw': {'id': 1, 'a0': 1}}, {'k': 'create', 'cls': 0, 'kw': {'id': 2, 'a0': 3}},
@@ -315,7 +359,7 @@ def run_history(spec, sessions=None, rng=None, nsess=0, nops=0, ctx=None, workdi
                 if count_s >= nsess: break
                 pending = None
             count_s += 1
-            w.objs = []; w.dumps = []; w.txn_written = []
+            w.objs = []; w.dumps = []; w.txn_written = []; w.assigned = {}
             exit_err = None
             doomed = set(); keep_alive = []
             try:
@@ -346,7 +390,7 @@ def run_history(spec, sessions=None, rng=None, nsess=0, nops=0, ctx=None, workdi
                     # ---- the property oracle
                     com = snap['committed']
                     for what, v in w.duplicates(com): findings.append(('duplicate-key-committed', {'key': what, 'value': v}, len(trace) - 1))
-                    if op['k'] == 'ext':
+                    if op['k'] in ('ext', 'extu', 'extd'):
                         if res['err'] is None: baseline = com
                     elif op['k'] == 'commit' and res['err'] is not None:
                         doomed.update(id(o) for o in res['written'])
@@ -367,7 +411,7 @@ def run_history(spec, sessions=None, rng=None, nsess=0, nops=0, ctx=None, workdi
                                 findings.append(('written-object-missing-after-commit', {'pk': pk}, len(trace) - 1))
                             else:
                                 for i, a in enumerate(w.attrs):
-                                    if a in o._vals_ and o._vals_[a] != rows[0][1][i]:
+                                    if i in res['assigned'].get(id(o), ()) and a in o._vals_ and o._vals_[a] != rows[0][1][i]:
                                         findings.append(('committed-value-differs-from-session', {'pk': pk, 'attr': i, 'session': o._vals_[a], 'table': rows[0][1][i]}, len(trace) - 1))
                         baseline = com
                     elif com != baseline:
